@@ -35,4 +35,11 @@ def main():
 
 
 if __name__ == '__main__':
-    main()
+    try:
+        main()
+    except SystemExit:
+        raise
+    except BaseException as e:          # a crash of the machinery itself is never a verdict about the code: exit 2, no VIOLATION line
+        print(f'INCONCLUSIVE: the check driver failed before reaching a verdict: {type(e).__name__}: {e}')
+        traceback.print_exc()
+        sys.exit(2)
